@@ -476,16 +476,23 @@ def classify_final(kind, item, ctxinfo):
     """signature of a monitor hit; the known defects are recognised by their TRIGGER (computed from the
     rows before the command and the task definition), everything else keeps a generic signature"""
     trig = ctxinfo.get('triggers', set())
-    if kind in ('stuck', 'exhausted', 'items-reexecuted', 'outcome') and 'concurrency-rerun' in trig:
-        return {'kind': 'rerun-with-concurrency-reexecutes-wrong-items'}
-    if kind in ('stuck', 'exhausted', 'items-reexecuted', 'outcome') and 'partial-tail' in trig:
-        return {'kind': 'partial-rerun-reexecutes-succeeded-items'}
     if kind in ('stuck', 'undeclared', 'outcome') and 'expired-job' in trig and ctxinfo.get('detached_error'):
         return {'kind': 'expired-scheduler-job-after-nested-rerun'}
+    # the two with-items defects are FIXED (494951d1): their signatures are kept so that a regression is
+    # reported under its own name; they are direct readings (wrong items / hang); an outcome difference
+    # is attributed to them only when no still-known cause of outcome differences is present
+    if kind in ('stuck', 'exhausted', 'items-reexecuted') and 'concurrency-rerun' in trig:
+        return {'kind': 'rerun-with-concurrency-reexecutes-wrong-items'}
+    if kind in ('stuck', 'exhausted', 'items-reexecuted') and 'partial-tail' in trig:
+        return {'kind': 'partial-rerun-reexecutes-succeeded-items'}
     if kind == 'outcome' and 'first-routes' in trig:
         return {'kind': 'rerun-keeps-first-attempt-routes'}
     if kind == 'outcome' and 'stale-published' in trig:
         return {'kind': 'stale-published-after-rerun'}
+    if kind == 'outcome' and 'concurrency-rerun' in trig:
+        return {'kind': 'rerun-with-concurrency-reexecutes-wrong-items'}
+    if kind == 'outcome' and 'partial-tail' in trig:
+        return {'kind': 'partial-rerun-reexecutes-succeeded-items'}
     sig = {'kind': kind}
     for k in ('what', 'type', 'where'):
         if k in item and isinstance(item[k], (str, int)):
@@ -880,32 +887,29 @@ def guard_monitors(res, world, final, sidx, drv, rng):
     if observe(after, sidx, len(final['tasks'])) != observe(final, sidx, len(final['tasks'])):
         res.hits.append(('rest-guard', {'what': 'rows changed by rejected/recorded REST calls'},
                          {'kind': 'rest-guard-changed-rows'}))
-    # engine level: a SUCCESS task of a failed workflow
+    # engine level: a SUCCESS task of a failed workflow (rerun or skip, chosen by the case rng)
     succ = [t for t in final['tasks'] if t['state'] == 'SUCCESS'
             and [w for w in final['wfs'] if w['ord'] == t['wf']][0]['state'] == 'ERROR'
             and sidx[t['name']][0]['kind'] != 'sub']
     if succ:
         t = succ[0]
+        skip = rng.random() < 0.35
         tpos = [x['ord'] for x in final['tasks']].index(t['ord'])
         n_err = len(world.errors)
-        m1 = drv.call('rerun.op', {'world': abstract(final, sidx), 'task': tpos, 'reset': True, 'skip': False})
-        world.op('rerun_workflow', t['id'], reset=True, skip=False)
+        obs0 = observe(final, sidx, len(final['tasks']))
+        m1 = drv.call('rerun.op', {'world': abstract(final, sidx), 'task': tpos, 'reset': True, 'skip': skip})
+        world.op('rerun_workflow', t['id'], reset=True, skip=skip)
         world.forget_broken()
         s1 = world.snapshot()
-        if 'error' in m1:
-            # an enclosing workflow cannot become RUNNING: declared error, nothing changes
-            errs = world.errors[n_err:]
-            same = observe(s1, sidx, len(final['tasks'])) == observe(final, sidx, len(final['tasks']))
-            res.feats.add('engine-success-rerun-chain-refused')
-            if not errs or not same:
-                res.disagreements.append(('engine-success-op-error', m1, [e['type'] for e in errs]))
-            if not (errs and all(e['declared'] for e in errs) and same):
-                res.hits.append(('engine-guard', {'what': 'refused command changed rows or raised undeclared',
-                                                  'errors': [e['type'] for e in errs]},
-                                 {'kind': 'refused-rerun-not-clean'}))
-            return
-        if canon_model_world(m1['ok']) != observe(s1, sidx, len(final['tasks'])):
-            res.disagreements.append(('engine-success-op', 'model', 'impl differs'))
+        op_errs = world.errors[n_err:]
+        res.feats.add('engine-success-%s' % ('skip' if skip else 'rerun'))
+        # model vs implementation: the command is refused <-> the model refuses it
+        if ('error' in m1) != bool(op_errs):
+            res.disagreements.append(('engine-success-op', m1 if 'error' in m1 else 'ok',
+                                      [e['type'] + ':' + e['msg'][:80] for e in op_errs]))
+        elif 'ok' in m1 and canon_model_world(m1['ok']) != observe(s1, sidx, len(final['tasks'])):
+            res.disagreements.append(('engine-success-op-world', 'model', 'impl differs'))
+        # whatever the command left behind is delivered (nothing, when it was refused)
         for _ in range(2):
             mine = [e for e in world.enabled() if e[0] == 'p' and (e[1].kind == 'posttx' or (
                 e[1].kind == 'rpc' and e[1].data['method'] == 'start_task'
@@ -914,20 +918,18 @@ def guard_monitors(res, world, final, sidx, drv, rng):
                 world.deliver(mine[0])
         s2 = world.snapshot()
         errs = world.errors[n_err:]
-        m2 = drv.call('rerun.start', {'world': abstract(s1, sidx), 'task': tpos, 'reset': True})
-        res.feats.add('engine-success-rerun')
-        if m2.get('error') != 'succeeded' or not any('Rerunning succeeded' in e['msg'] for e in errs):
-            res.disagreements.append(('engine-success-start', m2, [e['type'] + ':' + e['msg'][:80] for e in errs]))
         declared = bool(errs) and all(e['declared'] for e in errs)
         t2 = [x for x in s2['tasks'] if x['ord'] == t['ord']][0]
-        # monitor: 'already succeeded [tasks] cannot be rerun': a declared error and the task stays SUCCESS...
+        obs2 = observe(s2, sidx, len(final['tasks']))
+        # monitor: 'tasks that ... already succeeded cannot be rerun or skipped': a declared error, the task
+        # stays SUCCESS ...
         if not declared or t2['state'] != 'SUCCESS':
-            res.hits.append(('engine-guard', {'what': 'succeeded task rerun', 'errors': [e['type'] for e in errs],
-                                              'task_state': t2['state']},
+            res.hits.append(('engine-guard', {'what': 'succeeded task %s' % ('skipped' if skip else 'rerun'),
+                                              'errors': [e['type'] for e in errs], 'task_state': t2['state']},
                              {'kind': 'succeeded-task-rerun-not-refused'}))
         # ... and nothing else changes
-        elif observe(s2, sidx, len(final['tasks'])) != observe(final, sidx, len(final['tasks'])):
-            d = diff_only(observe(final, sidx, len(final['tasks'])), observe(s2, sidx, len(final['tasks'])))
+        elif obs2 != obs0 or len(s2['tasks']) != len(final['tasks']):
+            d = diff_only(obs0, obs2)
             res.hits.append(('engine-guard', {'what': 'refused rerun of a succeeded task changed the execution',
                                               'before': d[0], 'after': d[1]},
                              {'kind': 'engine-rerun-of-succeeded-task-reactivates-workflow'}))
